@@ -172,6 +172,32 @@ def fuzz_campaign(seed, runs, jobs=16):
         shutil.rmtree(tmp, ignore_errors=True)
 
 
+def failure_shard(b, p):
+    """histories with a failure in them: a call the library refuses (division by zero, failed assertion, unsupported operand,
+    width / index out of range, bad guard ...) is caught by the program, which then goes on with valid operations; the run
+    ends normally, so the recorded witness satisfies every constraint emitted - by the refused call as well"""
+    stats = core.Stats()
+    found = {}
+    for t, vals in (("I", [-3, 0, 1, 5]), ("B", [0, 1]), ("F", [-6, 0, 3, 8])):
+        for v in vals:
+            for k in range(16):
+                for follow in (["op", "mul", [0, 0]], ["op", "lt", [0, 0]], ["op", "add", [0, 0]]):
+                    prog = {"cfg": {"p": p, "b": b, "r": 2, "ignore": False}, "stmts": [["in", "priv", t, v], ["fail", k, 0], follow, ["fail", k + 5, 0], follow]}
+                    chk = Checker()
+                    key = "refused-call-%d.%s" % (k, t)
+                    try:
+                        m = ir.run_program(prog, after=chk)
+                        if m.raised is None:
+                            bad = r1cs.evaluate(m.ns.rec.cons, m.ns.rec.vals, m.ns.rec.P)
+                            if bad:
+                                found.setdefault(key, {"case": prog, "key": key, "msg": "constraint #%d is violated at the end of a run in which a refused call (kind %d on a %s operand of value %r) was caught and the program carried on" % (bad[0], k, t, v)})
+                    except core.Violation as vi:
+                        found.setdefault(key, {"case": prog, "msg": vi.msg, "key": key})
+                    stats.case(prog, True, ("history-with-a-refused-call",), sample_cap=1)
+    stats.violations = list(found.values())
+    return stats
+
+
 def replay(case):
     if case.get("part") == "history":
         from harness.checks import c15
@@ -213,6 +239,7 @@ def run(ctx):
     total.extra["shard_seeds"] = [s["seed"] for s in shards]
     total.extra["cell_sweep"] = {"cells": len(cells), "modes": MODES, "grids": [list(g) for g in grids]}
     total.merge_json(core.run_shards_optimised("harness.checks.c01", "shard", [dict(seed=ctx.seed * 1000 + 800 + i, n_examples=60) for i in range(4)]).to_json())
+    total.merge_json(core.run_shards("harness.checks.c01", "failure_shard", [dict(b=b_, p=p_) for b_, p_ in ((3, "bn128"), (8, "bls12-381"))]).to_json())
     # scale: completeness of secret-index reads and writes on arrays of 31 ... 257 elements and 65x2 / 2x65 matrices (the histories
     # of C15's long-array part; here only "the recorded witness satisfies every emitted constraint" is at stake)
     from harness.checks import c15
